@@ -1,5 +1,6 @@
 import GmqttVerif.Model.WsConn
 import GmqttVerif.Proofs.WsConn
+import GmqttVerif.Generated.WsFuncs
 /-
   C18 — WebSocket transport delivers the exact byte stream of the binary messages.
 
@@ -112,3 +113,17 @@ example : (run 0 St.init [.binary [1, 2, 3], .text [9]] [2, 2, 2, 2]).2.2
     = [.data [1, 2], .data [3], .errType, .eof] := by decide
 
 end GmqttVerif.WsConn
+
+/-! ### tie to the source, re-read on every run -/
+namespace GmqttVerif.WsSource
+open GmqttVerif.Generated
+
+/-- `type wsConn`, its methods `Close` / `Read` / `Write` and `(*server).wsHandler` are still the text `Model/WsConn.lean` was
+    written from (FNV-1a-64 of the normalised source, `Generated/WsFuncs.lean`). The model is one value per connection: the
+    adapter keeps no state outside the `wsConn` value (no package-level buffers shared between connections), which is what
+    lets `ws_stream_exact` speak about one connection at a time. -/
+theorem ws_adapter_as_transcribed :
+    wsFuncsH = [15089432948449270525, 12877403686621379036, 18430745549621644148, 12891631388857734999, 16318166848865260789] := by
+  decide
+
+end GmqttVerif.WsSource
